@@ -60,11 +60,15 @@ func splitAlts(s string) []string {
 
 func established(c *FC, key string, wantTrue bool, at ssa.Instruction) bool {
 	for _, ii := range c.p.ifs(c.fn) {
-		if ii.atom.Key != key {
-			continue
+		a := ii.atom
+		if a.Key != key {
+			if ii.alt == nil || ii.alt.Key != key {
+				continue
+			}
+			a = *ii.alt // a named condition decided by this value
 		}
 		slot := 0
-		if ii.atom.Pol != wantTrue {
+		if a.Pol != wantTrue {
 			slot = 1
 		}
 		if edgeEstablishedAt(c.fn, ii, slot, at) {
